@@ -312,7 +312,7 @@ impl Property for C01 {
     }
 
     fn cases(tier: Tier) -> u32 {
-        tier.pick(6000, 200_000)
+        tier.pick(15_000, 300_000)
     }
 
     fn quick_profiles() -> &'static [&'static str] {
